@@ -118,6 +118,15 @@ EXTRA = [
     {"type": "record", "name": "Strict", "fields": [
         {"name": "req", "type": "int"}, {"name": "nullable", "type": ["null", "int"]}, {"name": "nullable_default", "type": ["null", "int"], "default": None},
         {"name": "dflt", "type": "string", "default": "d"}, {"name": "n", "type": "null"}]},
+    {"type": "record", "name": "EnumDefaults", "fields": [
+        {"name": "e", "type": {"type": "enum", "name": "Suit", "symbols": ["SPADES", "HEARTS"], "default": "SPADES"}},
+        {"name": "e2", "type": ["null", "Suit"], "default": None}, {"name": "es", "type": {"type": "array", "items": "Suit"}, "default": []}]},
+    {"type": "enum", "name": "TopSuit", "symbols": ["A", "B", "C"], "default": "B"},
+    ["null", {"type": "record", "name": "AllDefaults", "fields": [{"name": "note", "type": "string", "default": ""}, {"name": "n", "type": ["null", "int"], "default": None}]},
+     {"type": "record", "name": "AllDefaults2", "fields": [{"name": "reason", "type": "string", "default": ""}]}],
+    {"type": "record", "name": "HoldsAllDefaults", "fields": [{"name": "u", "type": [
+        {"type": "record", "name": "Created", "fields": [{"name": "note", "type": "string", "default": ""}]},
+        {"type": "record", "name": "Deleted", "fields": [{"name": "reason", "type": "string", "default": ""}]}]}]},
     {"type": "record", "name": "BytesDefaults", "fields": [
         {"name": "k", "type": "int"}, {"name": "b", "type": "bytes", "default": "\u00ff\u0001"},
         {"name": "f", "type": {"type": "fixed", "name": "F2", "size": 2}, "default": "ab"}]},
@@ -264,6 +273,10 @@ def run_unit(i, tier):
     seen = set()
     ws = {"good": base}
     conforming = [d for d, c in alphabet.data_for(node, defs, 1, hints=True, big=(tier == "thorough"))]
+    if isinstance(raw, list) and any(isinstance(b, dict) and b.get("name") == "AllDefaults" for b in raw):
+        conforming += [{}, {"-type": "AllDefaults2"}, {"-type": "AllDefaults"}, {"note": "x"}, {"reason": "y"}]
+    if isinstance(raw, dict) and raw.get("name") == "HoldsAllDefaults":
+        conforming += [{"u": {}}, {"u": {"-type": "Deleted"}}, {"u": {"-type": "Created"}}, {"u": ("Deleted", {})}]
     for d in conforming:
         check(fa, res, raw, parsed, node, defs, d, seen, ws)
     ms = mutants(node, defs, base)
